@@ -4,6 +4,8 @@
 
 mod auth;
 mod authp;
+mod cipher;
+mod conn;
 mod util;
 
 fn main() {
@@ -22,6 +24,12 @@ fn main() {
         "pubkey" => auth::run_pubkey(&args),
         "clientgroups" => auth::run_clientgroups(&args),
         "adversary" => auth::run_adversary(&args),
+        "world" => cipher::run_world(&args),
+        "stream" => cipher::run_stream(&args),
+        "sweep" => cipher::run_sweep(&args),
+        "wrathhdr" => cipher::run_wrathhdr(&args),
+        "hdrio" => cipher::run_hdrio(&args),
+        "halves" => cipher::run_halves(&args),
         m => {
             eprintln!("wsh: unknown mode {}", m);
             std::process::exit(2)
